@@ -599,6 +599,12 @@ func (vc *VC) evalSliceExpr(st *State, x *ast.SliceExpr) Val {
 		if capLen != "" {
 			limit = capLen
 		}
+		if ce, ok := x.High.(*ast.CallExpr); ok {
+			if id, ok := ce.Fun.(*ast.Ident); ok && id.Name == "cap" {
+				// x[a:cap(x)]: reslicing up to the capacity is always legal; the extra elements are unconstrained
+				limit = hi
+			}
+		}
 		goal := fmt.Sprintf("(and (<= 0 %s) (<= %s %s) (<= %s %s))", lo, lo, hi, hi, limit)
 		vc.emit(st, "bounds", vc.fn.Key+"/bounds", vc.site("bounds"), goal, x.Pos(), "")
 		vc.assume(st, goal)
